@@ -57,6 +57,19 @@ type Contract struct {
 type SpecFile struct {
 	Path      string
 	Contracts []*Contract
+	Defines   []*Define
+	UFuns     []*UFun
+}
+
+// Define is a non-recursive specification macro: define name(p T, ...) R = expr
+type Define struct {
+	Name   string
+	Params []QVar
+	Result string
+	Body   Expr
+	Text   string
+	File   string
+	Line   int
 }
 
 // ParseSpecFile scans `//@` lines (or raw lines for *.spec files).
@@ -150,6 +163,20 @@ func ParseSpecFile(path string, pkgName string) (*SpecFile, error) {
 				}
 			}
 			sf.Contracts = append(sf.Contracts, cur)
+		case "define":
+			d, err := parseDefine(rest, path, ln)
+			if err != nil {
+				errs = append(errs, fmt.Sprintf("%s:%d: %v", path, ln, err))
+				continue
+			}
+			sf.Defines = append(sf.Defines, d)
+		case "ghostfun":
+			u, err := parseGhostFun(rest)
+			if err != nil {
+				errs = append(errs, fmt.Sprintf("%s:%d: %v", path, ln, err))
+				continue
+			}
+			sf.UFuns = append(sf.UFuns, u)
 		case "property":
 			if cur != nil {
 				cur.Props = append(cur.Props, strings.Fields(rest)...)
@@ -775,4 +802,84 @@ func (p *parser) parsePostfix() (Expr, error) {
 			return x, nil
 		}
 	}
+}
+
+func parseParamList(s string) ([]QVar, error) {
+	var out []QVar
+	for _, p := range splitTop(s, ',') {
+		p = strings.TrimSpace(p)
+		if p == "" {
+			continue
+		}
+		n, t := splitWord(p)
+		if t == "" {
+			return nil, fmt.Errorf("parameter %q needs a type", p)
+		}
+		out = append(out, QVar{Name: n, Type: t})
+	}
+	return out, nil
+}
+
+// define name(p T, q U) R = body
+func parseDefine(s, file string, line int) (*Define, error) {
+	i := strings.Index(s, "(")
+	j := matchParen(s, i)
+	if i < 0 || j < 0 {
+		return nil, fmt.Errorf("define: expected name(params) type = expr")
+	}
+	d := &Define{Name: strings.TrimSpace(s[:i]), File: file, Line: line, Text: s}
+	ps, err := parseParamList(s[i+1 : j])
+	if err != nil {
+		return nil, err
+	}
+	d.Params = ps
+	rest := s[j+1:]
+	k := strings.Index(rest, "=")
+	if k < 0 {
+		return nil, fmt.Errorf("define: missing '='")
+	}
+	d.Result = strings.TrimSpace(rest[:k])
+	e, err := ParseExpr(rest[k+1:])
+	if err != nil {
+		return nil, err
+	}
+	d.Body = e
+	return d, nil
+}
+
+// ghostfun name(T, U) R
+func parseGhostFun(s string) (*UFun, error) {
+	i := strings.Index(s, "(")
+	j := matchParen(s, i)
+	if i < 0 || j < 0 {
+		return nil, fmt.Errorf("ghostfun: expected name(types) type")
+	}
+	u := &UFun{Name: strings.TrimSpace(s[:i]), Result: strings.TrimSpace(s[j+1:])}
+	for _, p := range splitTop(s[i+1:j], ',') {
+		p = strings.TrimSpace(p)
+		if p != "" {
+			f := strings.Fields(p)
+			u.Params = append(u.Params, f[len(f)-1])
+		}
+	}
+	return u, nil
+}
+
+func matchParen(s string, i int) int {
+	if i < 0 {
+		return -1
+	}
+	d := 0
+	for k := i; k < len(s); k++ {
+		switch s[k] {
+		case '(':
+			d++
+		case ')':
+			d--
+			if d == 0 {
+				return k
+			}
+		}
+	}
+	return -1
 }
